@@ -69,6 +69,22 @@ def case_value(B, cfg):
         B.eq_array('individual-parameters(flat eta)', psi, psi_ref)
     except Exception as e:
         B.fact('no-exception:individual-parameters(flat eta)', False, repr(e))
+    # a second evaluation on the same instance with the caller's arrays
+    # overwritten in place (every entry shifted by one: stays in the support)
+    cth, cobs = ps.arr(B, thm), ps.arr(B, obs)
+    m.compute_log_likelihood(cth, cobs)
+    thm2 = [[x + 1 for x in r] for r in thm]
+    obs2 = [[x + 1 for x in r] for r in obs]
+    cth[...] = ps.arr(B, thm2)
+    cobs[...] = ps.arr(B, obs2)
+    ref2 = None
+    for i in range(n_ids):
+        for d in range(n_dim):
+            t = ps.logpdf(B, kind, [thm2[0][d], thm2[1][d]], obs2[i][d])
+            ref2 = t if ref2 is None else ref2 + t
+    B.eq('second call, containers overwritten in place: value = documented '
+         'density of the current contents',
+         m.compute_log_likelihood(cth, cobs), ref2)
 
 
 def _delta_value(B, cfg, m, th, thm):
